@@ -32,6 +32,10 @@ type SemOpts struct {
 	Off map[string]bool
 	// Bias
 	ManyTypes bool
+	// ChainMode: the include skeleton is a path f0 -> f1 -> ... (plus random
+	// extra edges from the root) and every file has a service extending the
+	// next file's service: long inheritance chains across modules
+	ChainMode bool
 	// ServiceBias: more services, inheritance chains preferably across files
 	ServiceBias bool
 	// DupLiterals: set literals may repeat an item (legal for a set; used where
@@ -67,6 +71,7 @@ type semGen struct {
 	noStructRefs bool
 	curFile      *File
 	seq          int
+	chainSvc     map[*File]*Service
 }
 
 func (g *semGen) name(prefix string) string {
@@ -120,7 +125,20 @@ func GenProgram(r *core.Rand, o SemOpts) *Program {
 	}
 	// include graph: every file but the first has an includer with a smaller
 	// index; extra forward edges at random; back edges only when cycles are allowed
-	for j := 1; j < nf; j++ {
+	if o.ChainMode {
+		for j := 1; j < nf; j++ {
+			if !g.include(g.p.Files[j-1], g.p.Files[j]) {
+				g.p.Files[j].Path = path.Dir(g.p.Files[j].Path) + "/" + g.name("m") + ".thrift"
+				g.include(g.p.Files[j-1], g.p.Files[j])
+			}
+		}
+		for j := 2; j < nf; j++ {
+			if r.Chance(1, 3) {
+				g.include(g.p.Files[0], g.p.Files[j])
+			}
+		}
+	}
+	for j := 1; j < nf && !o.ChainMode; j++ {
 		ok := false
 		for _, i := range r.Perm(j) {
 			if g.include(g.p.Files[i], g.p.Files[j]) {
@@ -134,7 +152,7 @@ func GenProgram(r *core.Rand, o SemOpts) *Program {
 			g.include(g.p.Files[r.Intn(j)], g.p.Files[j])
 		}
 	}
-	for i := 0; i < nf; i++ {
+	for i := 0; i < nf && !o.ChainMode; i++ {
 		for j := i + 1; j < nf; j++ {
 			if r.Chance(1, 3) {
 				g.include(g.p.Files[i], g.p.Files[j])
@@ -187,6 +205,15 @@ func GenProgram(r *core.Rand, o SemOpts) *Program {
 				}
 			}
 			g.declare(f, d)
+		}
+	}
+	if o.ChainMode && o.Services {
+		g.chainSvc = map[*File]*Service{}
+		for _, f := range g.p.Files {
+			g.curFile = f
+			sv := &Service{Name: g.name("Chain")}
+			g.chainSvc[f] = sv
+			g.declare(f, sv)
 		}
 	}
 	sort.SliceStable(g.all, func(a, b int) bool { return g.all[a].rank < g.all[b].rank })
@@ -982,6 +1009,18 @@ func sameType(a, b *TypeRef) bool {
 
 func (g *semGen) fillService(di *defInfo, s *Service) {
 	r := g.r
+	if g.chainSvc != nil && g.chainSvc[di.file] == s {
+		// extend the chain service of the next file on the path
+		for k, f := range g.p.Files {
+			if f == di.file && k+1 < len(g.p.Files) {
+				next := g.p.Files[k+1]
+				s.Parent = next.ModuleName() + "." + g.chainSvc[next].Name
+				s.ParentSvc = g.chainSvc[next]
+			}
+		}
+		s.Funcs = append(s.Funcs, &Function{Name: g.name("fn")})
+		return
+	}
 	// parent: a lower-ranked service (acyclic)
 	if r.Chance(1, 2) || g.o.ServiceBias {
 		vis := g.visible(di.file)
